@@ -36,6 +36,9 @@ META = {
     "rule": "a case is (peer address text, block_global, block_private, mode, transport); distinct = distinct tuple; non-trivial = at least one of the "
     "two options is enabled (otherwise Block has nothing to decide) and the address class is judged (not skipped:stdlib-table / undecided / multicast)",
     "assumptions": [
+        "uniformity clause: the class of an address is that of its most specific registry block, so all enumerated addresses of one block (including 6to4, "
+        "Teredo, NAT64, ISATAP and IPv4-compatible addresses embedding loopback / private / global IPv4 addresses) must get one verdict per option pair and mode; "
+        "this is judged for every block, also those whose absolute class is left to the interpreter's table; only ::ffff:a.b.c.d is a notation of an IPv4 address",
         "classes: private = RFC1918 + unique-local + link-local (the repository's own tests treat fe80:: as private); "
         "other registry blocks that are not globally reachable (CGNAT 100.64/10, documentation, benchmarking, reserved, ...) must not be refused by "
         "block_global alone, but whether block_private refuses them is not judged (the statement does not say whether they are 'private')",
@@ -127,6 +130,7 @@ def parse_peer(text):
 def all_addresses(thorough):
     a4 = set(ianaref.boundary_addresses(4, extra_inner=thorough)) | {ianaref.parse4(x) for x in ianaref.ORDINARY4}
     a6 = set(ianaref.boundary_addresses(6, extra_inner=thorough)) | {ianaref.parse6(x) for x in ianaref.ORDINARY6}
+    a6 |= {n for _, n in ianaref.embedding_addresses()}  # 6to4 / Teredo / NAT64 / ISATAP / IPv4-compatible forms of loopback, private, global IPv4
     # IPv6 texts inside ::ffff:0:0/96 are the mapped notation of IPv4 addresses: generated from the IPv4 side
     a6 = {n for n in a6 if (n >> 32) != 0xFFFF}
     return sorted(a4), sorted(a6)
@@ -370,10 +374,54 @@ def run_case(case, t: Tally, verbose=False):
             t.bad("refused_before_any_protocol_processing", feats, case, "client.error set => connection killed", obs)
 
 
+def gen_uniform_cases(thorough):
+    """the class of an address is that of its registry block: all enumerated addresses whose most specific block is the
+    same must get the same verdict.  This is independent of how an interpreter's table classifies the block, so it also
+    covers the blocks that are otherwise reported as skipped:stdlib-table / undecided (6to4, Teredo, ...), where the
+    embedded IPv4 address must not influence the decision."""
+    a4, a6 = all_addresses(thorough)
+    groups: dict = {}
+    for family, addrs in ((4, a4), (6, a6)):
+        for n in addrs:
+            _, blk = ianaref.classify(family, n)
+            groups.setdefault((family, blk.prefix), []).append(ianaref.fmt4(n) if family == 4 else ianaref.fmt6(n))
+    cases = []
+    for (family, prefix), texts in sorted(groups.items()):
+        if len(texts) < 2:
+            continue
+        for bg, bp in OPTS[:3]:
+            for mode in ("regular", "local"):
+                cases.append({"via": "uniform", "family": family, "block": prefix, "addrs": texts, "bg": bg, "bp": bp, "mode": mode, "transport": "tcp"})
+    return cases
+
+
+def run_uniform(case, t: Tally, verbose=False):
+    verdicts = {}
+    for text in case["addrs"]:
+        obs = observe_direct({"addr": text, "bg": case["bg"], "bp": case["bp"], "mode": case["mode"], "transport": case["transport"]})
+        v = "error" if obs["errors"] else ("refused" if obs["killed"] else "accepted")
+        verdicts.setdefault(v, []).append(text)
+    family, n = parse_peer(case["addrs"][0])
+    cls, blk = ianaref.classify(family, n)
+    if blk.prefix != case["block"]:
+        raise HarnessError("address %r is not in block %r" % (case["addrs"][0], case["block"]))
+    feats = {"cls": cls, "family": "v%d" % case["family"], "opts": ("g" if case["bg"] else "") + ("p" if case["bp"] else "") or "-",
+             "mode": case["mode"], "block": case["block"], "via": "uniform"}
+    obs = {k: v[:4] + (["... %d more" % (len(v) - 4)] if len(v) > 4 else []) for k, v in verdicts.items()}
+    if verbose:
+        print("  block %s (%s): %r" % (case["block"], blk.name, obs))
+    t.judge("same_registry_block_same_verdict", len(verdicts) == 1, feats, case, "one verdict for all %d addresses of %s (%s)" % (len(case["addrs"]), case["block"], blk.name), obs)
+    t.outcome(["uniform", case["block"], feats["opts"], case["mode"], sorted(verdicts)])
+    t.case(case if case["block"] == "2002::/16" else None, nontrivial=True, key=case)
+
+
 def chunk_fn(chunk):
     t = Tally()
     for case in chunk:
-        run_case(case, t)
+        if case.get("via") == "uniform":
+            run_uniform(case, t)
+        else:
+            run_case(case, t)
     return t
 
 
@@ -435,7 +483,10 @@ def run(ctx):
         gc.freeze()  # forked workers must not copy the parent's heap when their collector runs
     par.pmap_tally(direct_chunk, items, ctx.tally, nchunks=par.NPROC, nproc=nproc)
     ctx.log("direct layer done")
-    par.pmap_tally(chunk_fn, cases, ctx.tally, nchunks=par.NPROC * 2, nproc=nproc)
+    ucases = gen_uniform_cases(thorough)
+    ctx.bounds["uniformity_cases"] = "%d (registry block x option pair x {regular, local}): all enumerated addresses of a block, including 6to4 / Teredo / " \
+                                     "NAT64 / ISATAP / IPv4-compatible forms embedding loopback, private and global IPv4 addresses, get one verdict" % len(ucases)
+    par.pmap_tally(chunk_fn, cases + ucases, ctx.tally, nchunks=par.NPROC * 2, nproc=nproc)
     t = ctx.tally
     ctx.log("extra counters: %s" % dict(sorted(t.extra.items())))
     ctx.log("not judged: %d cases in %d blocks" % (sum(t.notes.values()), len(t.notes)))
@@ -444,4 +495,7 @@ def run(ctx):
 
 
 def replay(case, t: Tally, verbose=False):
-    run_case(case, t, verbose=verbose)
+    if isinstance(case, dict) and case.get("via") == "uniform":
+        run_uniform(case, t, verbose=verbose)
+    else:
+        run_case(case, t, verbose=verbose)
